@@ -139,7 +139,7 @@ Proof. exact legalize_circuit_twice. Qed.
 (* [P] what is not covered: designs outside rowhigh_design (multi-row movable cells are excluded
    by the statement of C11; turned rows, overlapping rows).  The link between computeCellOrder and
    order_left_to_right is proved at the end of this file for the model of computeCellOrder over Q
-   (c11_real_order_left_to_right and the closed-model theorems c11_legalize_real_order_*); what
+   (c11_real_order_left_to_right and the closed-model theorems c11_legalize_real_order_...); what
    stays outside the proof is the binary32 evaluation of the key (exact, hence equal to the model,
    when every intermediate is a multiple of 2^-s below 2^(24-s) in magnitude: compared exactly on
    such cases by checks/c11_order.py; rounded keys may tie or invert two cells where the exact keys
